@@ -15,9 +15,12 @@
 //!                              G[k] = build_module_signature(m', parse(cid' as m')), or the
 //!                              builtin signature for `k=!`                 -> `k:tok,...`
 //!   perr <m> <cid>             parse errors of the content parsed as module m -> `tok,...`
-//!   aff <m> ...                (hook, optional) DependencyGraph::new(current).affected_set(dirty)
-//! Observation = `<name>=<+|-><tok,tok,...|->/<fullhash>` for every module name mentioned so far in
-//! this history (sorted), `+` iff it is in all_modules(); tok = hash of (location, IDE text,
+//!   graph <m>=<imp,imp|-> ... // <dirty> ...   (hook H5) parses one text per module that imports exactly
+//!                              the listed modules, then DependencyGraph::new(parsed).affected_set(dirty)
+//!                              -> sorted names `a,b,...` or `-`
+//! Observation = `<name>=<bits><tok,tok,...|->/<fullhash>` for every module name mentioned so far in
+//! this history (sorted); bits = digit 0..7: 1 = key of parsed_modules (all_modules()), 2 = key of
+//! string_sources, 4 = key of checked_modules (hook H5); tok = hash of (location, IDE text,
 //! reference locations) of one error; fullhash = hash of the complete `to_ide_format` rendering
 //! (with source snippets) of the module's sorted error list.  `panic:<msg>` if the call panicked.
 use samlang_checker::type_::GlobalSignature;
@@ -94,6 +97,8 @@ fn observe(st: &ServerState, names: &BTreeSet<String>, verbose: bool) -> String 
   for m in st.all_modules() {
     present.insert(name_of(&st.heap, m), *m);
   }
+  let checked: std::collections::HashSet<ModuleReference> =
+    samlang_services::verif_hooks_c10::module_maps(st).1.into_iter().collect();
   let mut all: BTreeSet<String> = names.clone();
   all.extend(present.keys().cloned());
   let mut parts = Vec::new();
@@ -119,7 +124,19 @@ fn observe(st: &ServerState, names: &BTreeSet<String>, verbose: bool) -> String 
     toks.dedup();
     fulls.sort();
     fulls.dedup();
-    let flag = if present.contains_key(n) { '+' } else { '-' };
+    let mut bits = 0u8;
+    if present.contains_key(n) {
+      bits |= 1;
+    }
+    if let Some(m) = &m {
+      if st.string_sources.contains_key(m) {
+        bits |= 2;
+      }
+      if checked.contains(m) {
+        bits |= 4;
+      }
+    }
+    let flag = (b'0' + bits) as char;
     parts.push(format!(
       "{}={}{}/{:012x}",
       n,
@@ -188,7 +205,7 @@ fn main() {
           Err(e) => format!("panic:{}", hex(panic_msg(&e).as_bytes())),
         }
       }
-      "upd" | "ren" | "rem" | "aff" => {
+      "upd" | "ren" | "rem" => {
         let Some(st) = sess.state.as_mut() else { return "no-state".to_string() };
         let names = &mut sess.names;
         let r = catch_unwind(AssertUnwindSafe(|| match t[0] {
@@ -224,10 +241,9 @@ fn main() {
             st.remove(&ms);
             String::new()
           }
-          _ => affected(st, &t[1..]),
+          _ => String::new(),
         }));
         match r {
-          Ok(s) if t[0] == "aff" => s,
           Ok(_) => catch_unwind(AssertUnwindSafe(|| observe(st, names, verbose)))
             .unwrap_or_else(|e| format!("panic:{}", hex(panic_msg(&e).as_bytes()))),
           Err(e) => {
@@ -236,6 +252,36 @@ fn main() {
             format!("panic:{}", hex(panic_msg(&e).as_bytes()))
           }
         }
+      }
+      "graph" => {
+        let r = catch_unwind(AssertUnwindSafe(|| {
+          let mut heap = Heap::new();
+          let sep = t.iter().position(|x| *x == "//").unwrap_or(t.len());
+          let mut parsed = HashMap::new();
+          for kv in &t[1..sep] {
+            let (n, imps) = kv.split_once('=').unwrap();
+            let m = mod_of(&mut heap, n);
+            let text: String = if imps == "-" {
+              String::new()
+            } else {
+              imps.split(',').map(|i| format!("import {{ X }} from {i}\n")).collect()
+            };
+            let mut es = ErrorSet::new();
+            parsed.insert(
+              m,
+              samlang_parser::parse_source_module_from_text(&text, m, &mut heap, &mut es),
+            );
+          }
+          let dirty: Vec<ModuleReference> =
+            t[(sep + 1).min(t.len())..].iter().map(|n| mod_of(&mut heap, n)).collect();
+          let mut out: Vec<String> = samlang_services::verif_hooks_c10::affected_set(&parsed, dirty)
+            .iter()
+            .map(|m| name_of(&heap, m))
+            .collect();
+          out.sort();
+          if out.is_empty() { "-".to_string() } else { out.join(",") }
+        }));
+        r.unwrap_or_else(|e| format!("panic:{}", hex(panic_msg(&e).as_bytes())))
       }
       "perr" => {
         let mut heap = Heap::new();
@@ -313,18 +359,3 @@ fn main() {
   });
 }
 
-#[cfg(samlang_verif_c10_hook)]
-fn affected(st: &mut ServerState, names: &[&str]) -> String {
-  let dirty: Vec<ModuleReference> = names.iter().map(|n| mod_of(&mut st.heap, n)).collect();
-  let mut out: Vec<String> = samlang_services::verif_hooks::affected_set(st, dirty)
-    .iter()
-    .map(|m| name_of(&st.heap, m))
-    .collect();
-  out.sort();
-  if out.is_empty() { "-".to_string() } else { out.join(",") }
-}
-
-#[cfg(not(samlang_verif_c10_hook))]
-fn affected(_st: &mut ServerState, _names: &[&str]) -> String {
-  "no-hook".to_string()
-}
